@@ -216,6 +216,19 @@ theorem opEnergy_nonneg (c : Costs) (l : ELayer) (v : ℚ)
               positivity
   · simp at h; subst h; exact le_rfl
 
+/-- the merge branch prices its operator through the same `unitCost` as the MAC and BN branches -/
+theorem opEnergy_merge_unit (c : Costs) (l : ELayer) (u : OpUnit)
+    (hk : eKind l.className = .merge) (hu : l.multiplier = some u) :
+    opEnergy c l = (unitCost c u).map fun e => ((l.nInputs : ℚ) - 1) * (l.opCount : ℚ) * e := by
+  unfold opEnergy unitCost
+  simp only [hk, hu]
+  cases ht : opType? u.out with
+  | none => simp [ht]
+  | some t =>
+    cases he : opCost c t u.mode u.gateBits with
+    | none => simp [ht, he]
+    | some e => simp [ht, he]; ring
+
 theorem list_sum_map_nonneg {α : Type} (l : List α) (f : α → ℚ) (h : ∀ a ∈ l, 0 ≤ f a) :
     0 ≤ (l.map f).sum := by
   apply List.sum_nonneg
